@@ -62,7 +62,7 @@ def gen(rng: Any, tier: str, i: int) -> Any:
         from . import c15
 
         case = None
-        while case is None or case.get("kind") != "battery" or case.get("unusable") is not None:
+        while case is None or case.get("kind") != "battery" or case.get("unusable") is not None or case.get("bat_concurrent"):
             case = c15.gen(rng, tier, i)
         case.update({"kind": "manager", "followup": True, "timeout": 5.0, "latency": 0.0})
         case.pop("lat_vec", None)
@@ -346,6 +346,7 @@ def check(case: dict[str, Any], rec: Any) -> None:
         rec.bucket("messages-stamped-in-a-non-utc-zone")
     statuses = out["statuses"]
     events = []
+    age_of: dict[Any, float] = {}  # age of each message (by its own timestamp) when it arrived
     prev_b: Any = None  # (time sent, fault, age at that time) of the last *new* battery message
     for t, kind, a, b in case["events"]:
         if kind == "bat" and a == "repeat" and prev_b is not None:
@@ -360,6 +361,7 @@ def check(case: dict[str, Any], rec: Any) -> None:
         if kind == "bat":
             healthy = a in (None, "warn") and b <= MAXAGE
             events.append((t, "bat", healthy))
+            age_of[(t, "bat")] = b
             if a not in (None, "warn"):
                 rec.bucket("fault:" + a)
             if b > MAXAGE:
@@ -367,6 +369,7 @@ def check(case: dict[str, Any], rec: Any) -> None:
         elif kind == "inv":
             healthy = a is None and b <= MAXAGE
             events.append((t, "inv", healthy))
+            age_of[(t, "inv")] = b
             if a is not None:
                 rec.bucket("inv-fault:" + a)
         else:
@@ -392,7 +395,9 @@ def check(case: dict[str, Any], rec: Any) -> None:
         for te, k, h in events:
             if k == kind and te <= t + 1e-6:  # (float noise of loop.time() differences)
                 last = (te, h)
-        return last is not None and bool(last[1]) and (t - last[0]) <= MAXAGE + 1e-3
+        # "the latest messages ... are younger than the maximum data age": the age of a message counts from its own
+        # timestamp (a reading that is 4 s old when it arrives has 1 s left), not from its arrival
+        return last is not None and bool(last[1]) and (t - last[0]) + age_of.get((last[0], kind), 0.0) <= MAXAGE + 1e-3
 
     def recent(t: float) -> list[Any]:
         return [e for e in events if t - 7 < e[0] <= t + 0.01][-10:]
@@ -430,10 +435,14 @@ def check(case: dict[str, Any], rec: Any) -> None:
             if not h:
                 dis.append((te, kind, "unhealthy-message"))
             nxt = evs[j + 1][0] if j + 1 < len(evs) else 1e9
-            if nxt - te > MAXAGE + 1e-6:
-                gaps = True
-                if h and te + MAXAGE < horizon + 3 * MAXAGE - 1:
-                    dis.append((te + MAXAGE, kind, "silence"))
+            left = MAXAGE - age_of.get((te, kind), 0.0)  # what is left of the message's life when it arrives
+            if nxt - te > left + 1e-6:
+                if nxt - te > MAXAGE + 1e-6:
+                    gaps = True
+                elif h:
+                    rec.bucket("latest-message-outlived-although-the-next-came-within-max-age-of-its-arrival")
+                if h and te + left < horizon + 3 * MAXAGE - 1:
+                    dis.append((te + left, kind, "silence"))
             elif nxt - te > 1.5:
                 rec.bucket("silence<maxage")
         if gaps:
